@@ -93,7 +93,43 @@ class _BoundFormat(ast.NodeTransformer):
         return R().visit(node)
 
 
+class DictMembership(ast.NodeTransformer):
+    """`"name" in self.__dict__` / `"name" in vars(self)`  ->  hasattr(self, "name")   (instance attributes: the same test for the plain
+    attributes the memo rules are about);  the statement `self.__dict__.pop(name, None)`  ->  `if hasattr(self, name): delattr(self, name)`."""
+    @staticmethod
+    def _owner(node):
+        if isinstance(node, ast.Attribute) and node.attr == "__dict__" and isinstance(node.value, ast.Name):
+            return node.value
+        if isinstance(node, ast.Call) and isinstance(node.func, ast.Name) and node.func.id == "vars" and len(node.args) == 1 \
+                and isinstance(node.args[0], ast.Name) and not node.keywords:
+            return node.args[0]
+        return None
+
+    def visit_Compare(self, node):
+        self.generic_visit(node)
+        if len(node.ops) == 1 and isinstance(node.ops[0], (ast.In, ast.NotIn)) and self._owner(node.comparators[0]) is not None \
+                and (isinstance(node.left, ast.Name) or (isinstance(node.left, ast.Constant) and isinstance(node.left.value, str))):
+            call = ast.Call(ast.Name("hasattr", ast.Load()), [self._owner(node.comparators[0]), node.left], [])
+            new = call if isinstance(node.ops[0], ast.In) else ast.UnaryOp(ast.Not(), call)
+            return ast.fix_missing_locations(ast.copy_location(new, node))
+        return node
+
+    def visit_Expr(self, node):
+        self.generic_visit(node)
+        c = node.value
+        if isinstance(c, ast.Call) and isinstance(c.func, ast.Attribute) and c.func.attr == "pop" and self._owner(c.func.value) is not None \
+                and len(c.args) == 2 and isinstance(c.args[1], ast.Constant) and c.args[1].value is None and not c.keywords \
+                and (isinstance(c.args[0], ast.Name) or isinstance(c.args[0], ast.Constant)):
+            own = self._owner(c.func.value)
+            import copy
+            new = ast.If(ast.Call(ast.Name("hasattr", ast.Load()), [own, c.args[0]], []),
+                         [ast.Expr(ast.Call(ast.Name("delattr", ast.Load()), [copy.deepcopy(own), copy.deepcopy(c.args[0])], []))], [])
+            return ast.fix_missing_locations(ast.copy_location(new, node))
+        return node
+
+
 def normalise(tree):
+    tree = DictMembership().visit(tree)
     tree = _BoundFormat().visit(tree)
     tree = FormatToFString().visit(tree)
     return BuiltinFormat().visit(tree)
